@@ -2,6 +2,7 @@ package vc
 
 import (
 	"fmt"
+	"math/big"
 	"os"
 	"go/ast"
 	"go/token"
@@ -123,9 +124,10 @@ func (vc *VC) evalConversion(fr *frame, st *State, c *ast.CallExpr, to types.Typ
 			if lo.Sign() == 0 {
 				return vc.wrapInt(t, to) // unsigned: modular
 			}
-			// signed narrowing: require in range (obligation), treat as identity
-			vc.oblige(st, "safety", "narrow", c.Pos(), And(Le(BigIntLit(lo), t), Le(t, BigIntLit(hi))), "narrowing integer conversion may overflow")
-			return t
+			// signed narrowing wraps (two's complement); it never panics
+			span := new(big.Int).Sub(hi, lo)
+			span.Add(span, big.NewInt(1))
+			return vc.define("narrow", Add(App(SInt, "mod", Sub(t, BigIntLit(lo)), BigIntLit(span)), BigIntLit(lo)))
 		case tu.Info()&types.IsFloat != 0 && isInteger(from):
 			return vc.toFloat(vc.term(v))
 		case tu.Info()&types.IsFloat != 0 && isFloat(from):
@@ -154,8 +156,11 @@ func (vc *VC) evalConversion(fr *frame, st *State, c *ast.CallExpr, to types.Typ
 				return vc.bytesToString(st, s)
 			}
 			if isInteger(from) {
-				vc.errorf(c.Pos(), "string(rune) conversion unsupported")
-			}
+					// string(rune): some short string (contents not modelled)
+					r := vc.fresh("runestr", SSlice)
+					vc.assume(st, vc.typeFacts(r, types.Typ[types.String], st.alloc))
+					return r
+				}
 			return v
 		}
 	case *types.Slice:
@@ -722,6 +727,21 @@ func (vc *VC) newFrame(fi *FuncInfo, ct *Contract) *frame {
 	if fi.Decl.Body != nil {
 		numberLoops(fr, fi.Decl.Body, 0)
 		fr.specPos = fi.Decl.Body.Lbrace + 1
+		if vc.addrTaken == nil {
+			vc.addrTaken = map[*types.Var]bool{}
+		}
+		ast.Inspect(fi.Decl.Body, func(nd ast.Node) bool {
+			if u, ok := nd.(*ast.UnaryExpr); ok && u.Op == token.AND {
+				if id, ok := u.X.(*ast.Ident); ok {
+					if o, ok := fi.Pkg.TypesInfo.ObjectOf(id).(*types.Var); ok && structOf(o.Type()) == nil {
+						if _, isArr := o.Type().Underlying().(*types.Array); !isArr {
+							vc.addrTaken[o] = true
+						}
+					}
+				}
+			}
+			return true
+		})
 		fr.stmtOrd = map[ast.Stmt]int{}
 		n := 0
 		ast.Inspect(fi.Decl.Body, func(nd ast.Node) bool {
@@ -803,7 +823,7 @@ func (vc *VC) callByContract(fr *frame, st *State, ct *Contract, fo *types.Func,
 		return &specEnv{vc: vc, st: cur, old: old, names: nm, pkg: pk, allocB: allocB, pos: pos}
 	}
 	vc.callCount(fr, short)
-	if r := sig.Recv(); r != nil && recv != nil && !vc.noSafety {
+	if r := sig.Recv(); r != nil && recv != nil && !vc.noSafety && !ct.NilRecv {
 		if _, isPtr := r.Type().Underlying().(*types.Pointer); isPtr {
 			if rt, ok := recv.(Term); ok && rt.Sort == SInt {
 				vc.oblige(st, "safety", "nil", pos, Not(Eq(rt, IntLit(0))), "method call on nil receiver")
